@@ -131,9 +131,11 @@ func (calc *RewardCalculator) numofMoreBlocksBeforeYearClose() (int64, int) {
 			// calculate how many more blocks proportionally
 			cycle := calc.options.BlockSpeedCalculateCycle
 			numofMoreBlocks = int64(float64(secsToClose*cycle) / float64(secsPerCycle))
-			if numofMoreBlocks == 0 {
-				// this shouldn't happen if YearCloseWindow is set propoerly
-				continue
+			if numofMoreBlocks < cycle {
+				// the amount is handed out for a whole cycle before the forecast is renewed: a
+				// forecast of fewer blocks than that (a cycle slower than the time left to the
+				// close) would distribute more than what is left of the year
+				numofMoreBlocks = cycle
 			}
 			yearIndex = i
 			break
